@@ -7,7 +7,8 @@ FLAVOUR = "asan"
 S = 1000000000
 ASSUMPTIONS = [
     "plugins are scripted: a plugin's behaviour in one run() is (return value, clock advance, optional pause_actions call "
-    "made immediately before returning STOP - the BaseKillPlugin::run protocol)",
+    "made immediately before returning STOP - the BaseKillPlugin::run protocol; C06 adds 8% histories where an action "
+    "pauses its ruleset and then returns ASYNC_PAUSED: there only the C06 clauses are decided, the pause bookkeeping follows the code)",
     "steady_clock is the harness's virtual CLOCK_MONOTONIC (non-decreasing, starts at 1000 s)",
 ]
 TRUSTED = ["scripted plugins + virtual clock in harness/h_engine.cpp"]
@@ -35,7 +36,7 @@ def mk_rulesets(rng, nrs=None, small=False):
     return rss
 
 
-def mk_tick(rng, rss, p_stop_det=0.25, p_async_act=0.3):
+def mk_tick(rng, rss, p_stop_det=0.25, p_async_act=0.3, relaxed=False):
     calls = {}
     for r in rss:
         quiet = rng.random() < 0.25       # no group fires for this ruleset on this tick
@@ -53,6 +54,8 @@ def mk_tick(rng, rss, p_stop_det=0.25, p_async_act=0.3):
             pause = -1
             if ret == 1 and rng.random() < 0.4:
                 pause = rng.choice([0, 1, 3, 7, 30])
+            if relaxed and ret == 2 and rng.random() < 0.5:
+                pause = rng.choice([1, 3, 7, 12])     # pauses its ruleset, then yields (outside the kill-plugin protocol)
             if ret or adv:
                 calls[str(a)] = [ret, adv, pause]
     return {"gap": rng.choice([S, 5 * S, 5 * S, 5 * S, 2 * S, 10 * S, 15 * S, 0, 3 * S + S // 2]), "calls": calls}
@@ -62,8 +65,14 @@ def gen(rng, tier, prop):
     n = {"quick": 2500, "thorough": 60000, "search": 12000}[tier]
     for _ in range(n):
         rss = mk_rulesets(rng)
-        ticks = [mk_tick(rng, rss) for _ in range(rng.randint(3, 14))]
-        yield {"prop": prop, "rulesets": rss, "ticks": ticks}
+        # C06 only: 8% of the histories have actions that call pause_actions() and then return ASYNC_PAUSED - not what the
+        # kill plugins do, but the engine must not lose the suspended chain while the ruleset is paused
+        relaxed = prop == "C06" and rng.random() < 0.08
+        ticks = [mk_tick(rng, rss, relaxed=relaxed) for _ in range(rng.randint(3, 14))]
+        sc = {"prop": prop, "rulesets": rss, "ticks": ticks}
+        if relaxed:
+            sc["relaxed"] = True
+        yield sc
     if tier == "thorough":
         # exhaustive: 1 ruleset, 1 group, 1 detector, 2 actions, 3 ticks, all return values,
         # stop with/without own delay; gaps 5 s
